@@ -92,10 +92,10 @@ Proof. unfold valid_reg. intros r H. lia. Qed.
 Lemma inv_step : forall c done r c', inv c done -> with_function r c = Some c' -> inv c' (done ++ [r]).
 Proof.
   intros c done r c' I W. unfold with_function in W.
-  destruct (valid_reg r) eqn:Vr; cbn in W; [| discriminate].
+  destruct (valid_reg r) eqn:Vr; cbn [negb] in W; [| discriminate].
   apply valid_reg_spec in Vr. destruct Vr as [V1 V2].
   destruct (c (rname r)) as [old |] eqn:Ec.
-  - destruct (Bool.eqb (iter old) (riter r)) eqn:Ei; cbn in W; [| discriminate].
+  - destruct (Bool.eqb (iter old) (riter r)) eqn:Ei; cbn [negb] in W; [| discriminate].
     apply eqb_prop in Ei. inversion W; subst c'; clear W.
     split.
     + intros name cnt. rewrite rev_app_distr. cbn [rev app find].
@@ -116,12 +116,12 @@ Proof.
     + intros name f r0 Hc Hin Hn. unfold upd in Hc. apply in_app_or in Hin.
       destruct (N.eqb_spec name (rname r)) as [-> | Nn].
       * inversion Hc; subst f; cbn. destruct Hin as [Hin | [<- | []]]; [| reflexivity].
-        rewrite <- Ei. symmetry. eapply (inv_iter _ _ I); eauto.
+        rewrite <- Ei. eapply (inv_iter _ _ I); eauto.
       * destruct Hin as [Hin | [<- | []]]; [eapply (inv_iter _ _ I); eauto | congruence].
     + intros name Hc r0 Hin. unfold upd in Hc. destruct (N.eqb_spec name (rname r)); [discriminate |].
       apply in_app_or in Hin. destruct Hin as [Hin | [<- | []]]; [eapply (inv_none _ _ I); eauto | congruence].
     + intros name f Hc. unfold upd in Hc. destruct (N.eqb_spec name (rname r)).
-      * inversion Hc; cbn. apply lor_lt_pow2; [apply argcount_of_lt; assumption | eapply (inv_small _ _ I); eauto].
+      * inversion Hc; cbn [argcount]. apply lor_lt_pow2; [apply argcount_of_lt; assumption | eapply (inv_small _ _ I); eauto].
       * eapply (inv_small _ _ I); eauto.
   - inversion W; subst c'; clear W. split.
     + intros name cnt. rewrite rev_app_distr. cbn [rev app find].
@@ -147,7 +147,7 @@ Proof.
     + intros name Hc r0 Hin. unfold upd in Hc. destruct (N.eqb_spec name (rname r)); [discriminate |].
       apply in_app_or in Hin. destruct Hin as [Hin | [<- | []]]; [eapply (inv_none _ _ I); eauto | congruence].
     + intros name f Hc. unfold upd in Hc. destruct (N.eqb_spec name (rname r)).
-      * inversion Hc; cbn. apply argcount_of_lt; assumption.
+      * inversion Hc; cbn [argcount]. apply argcount_of_lt; assumption.
       * eapply (inv_small _ _ I); eauto.
 Qed.
 
@@ -179,6 +179,303 @@ Proof.
     unfold covers in Hc. lia.
   - intros [r (Hin & Hn & Hr)].
     destruct (find (covers name cnt) (rev regs)) as [r' |] eqn:F; [eexists; reflexivity |].
-    exfalso. apply (find_none _ _ F r); [now apply in_rev in Hin |]. unfold covers. lia.
+    exfalso. apply in_rev in Hin. generalize (find_none _ _ F r Hin). unfold covers. lia.
 Qed.
 
+
+(* the masks stay below 2^31: Go's 64-bit int arithmetic never wraps here, and for cnt >= 31 (in
+   particular cnt >= 63, where Go's 1<<cnt is MinInt64 or 0) the AND is 0 in Go exactly as in N *)
+Lemma argcount_small : forall regs c, apply_opts regs empty_table = Some c ->
+  forall name f, c name = Some f -> argcount f < 2 ^ 31 /\ forall cnt, 31 <= cnt -> accept f cnt = false.
+Proof.
+  intros regs c A name f Hc.
+  assert (I : inv c ([] ++ regs)) by (eapply inv_apply; [apply inv_empty | exact A]).
+  assert (S := inv_small _ _ I _ _ Hc). split; [exact S |].
+  intros cnt L. unfold accept. rewrite bit_set_testbit. eapply small_no_high_bit; eauto.
+Qed.
+
+(* ---------------------------------------------------------------- variables *)
+
+Section VarsProofs.
+  Variable V : Type.
+
+  Lemma find_app' : forall {A} (p : A -> bool) l1 l2,
+    find p (l1 ++ l2) = match find p l1 with Some x => Some x | None => find p l2 end.
+  Proof. induction l1; cbn; [reflexivity |]. intros. destruct (p a); auto. Qed.
+
+  Lemma NoDup_app_snoc : forall {A} (l : list A) a, NoDup l -> ~ In a l -> NoDup (l ++ [a]).
+  Proof.
+    induction l as [| x l IH]; intros a ND Hn; cbn; [constructor; [intros [] | constructor] |].
+    inversion ND; subst. constructor.
+    - intro Hin. apply in_app_or in Hin. destruct Hin as [Hin | [<- | []]]; [contradiction | apply Hn; now left].
+    - apply IH; [assumption | intro; apply Hn; now right].
+  Qed.
+
+  Record wf (vs : scope_vars) : Prop := {
+    wf_lt : forall p, In p vs -> snd p < N.of_nat (length vs);
+    wf_slots : NoDup (map snd vs);
+    wf_names : NoDup (map fst vs) }.
+
+  Definition val (vs : scope_vars) (e : store V) (name : N) : option V :=
+    match find_var vs name with Some s => e s | None => None end.
+
+  Lemma find_var_in : forall vs m s, find_var vs m = Some s -> In (m, s) vs.
+  Proof.
+    unfold find_var. intros vs m s H. destruct (find (fun v => fst v =? m) vs) as [[a b] |] eqn:F; [| discriminate].
+    apply find_some in F. cbn in *. destruct F as [Hin E]. apply N.eqb_eq in E. inversion H; subst. exact Hin.
+  Qed.
+
+  Lemma find_var_none : forall vs m, find_var vs m = None -> ~ In m (map fst vs).
+  Proof.
+    unfold find_var. intros vs m H Hin. destruct (find (fun v => fst v =? m) vs) eqn:F; [discriminate |].
+    apply in_map_iff in Hin. destruct Hin as [p [E Hp]]. generalize (find_none _ _ F p Hp). cbn. lia.
+  Qed.
+
+  Lemma nodup_snd_inj : forall (vs : scope_vars) a b s, NoDup (map snd vs) -> In (a, s) vs -> In (b, s) vs -> a = b.
+  Proof.
+    induction vs as [| p vs IH]; intros a b s ND Ha Hb; [contradiction |].
+    cbn in ND. inversion ND as [| x l Hnot ND']; subst.
+    destruct Ha as [-> | Ha]; destruct Hb as [Eb | Hb].
+    - now inversion Eb.
+    - exfalso. apply Hnot. cbn. change s with (snd (b, s)). now apply in_map.
+    - subst p. exfalso. apply Hnot. cbn. change s with (snd (a, s)). now apply in_map.
+    - eapply IH; eauto.
+  Qed.
+
+  Lemma push_variable_spec : forall vs n s vs', wf vs -> push_variable vs n = (s, vs') ->
+    wf vs' /\ find_var vs' n = Some s /\
+    (forall m, m <> n -> find_var vs' m = find_var vs m) /\
+    (forall m s', m <> n -> find_var vs' m = Some s' -> s' <> s).
+  Proof.
+    intros vs n s vs' W P. unfold push_variable in P.
+    destruct (find_var vs n) as [s0 |] eqn:F.
+    - inversion P; subst. repeat split; try apply W; auto.
+      intros m s' Nm Fm ->. apply find_var_in in F. apply find_var_in in Fm.
+      apply Nm. eapply nodup_snd_inj; eauto. apply W.
+    - inversion P; subst; clear P.
+      assert (Hfresh : ~ In (N.of_nat (length vs)) (map snd vs)).
+      { intro Hin. apply in_map_iff in Hin. destruct Hin as [p [E Hp]]. generalize (wf_lt _ W p Hp). lia. }
+      split; [split |].
+      + intros p Hin. rewrite app_length. cbn. apply in_app_or in Hin.
+        destruct Hin as [Hin | [<- | []]]; [generalize (wf_lt _ W p Hin) |]; cbn; lia.
+      + rewrite map_app. cbn. apply NoDup_app_snoc; [apply W | exact Hfresh].
+      + rewrite map_app. cbn. apply NoDup_app_snoc; [apply W | now apply find_var_none].
+      + split; [| split].
+        * unfold find_var in *. rewrite find_app'.
+          destruct (find (fun v => fst v =? n) vs); [discriminate |]. cbn. now rewrite N.eqb_refl.
+        * intros m Nm. unfold find_var. rewrite find_app'.
+          destruct (find (fun v => fst v =? m) vs); [reflexivity |]. cbn.
+          destruct (N.eqb_spec n m); [congruence | reflexivity].
+        * intros m s' Nm Fm ->. unfold find_var in Fm. rewrite find_app' in Fm.
+          destruct (find (fun v => fst v =? m) vs) as [[a b] |] eqn:Fv.
+          -- cbn in Fm. inversion Fm; subst. apply find_some in Fv. destruct Fv as [Hin _].
+             apply Hfresh. change (N.of_nat (length vs)) with (snd (a, N.of_nat (length vs))). now apply in_map.
+          -- cbn in Fm. destruct (N.eqb_spec n m); [congruence | discriminate].
+  Qed.
+
+  Lemma bind_spec_cons : forall n ns (x : V) xs m,
+    bind_spec V (n :: ns) (x :: xs) m =
+    match bind_spec V ns xs m with Some y => Some y | None => if n =? m then Some x else None end.
+  Proof.
+    intros. unfold bind_spec. cbn [combine rev]. rewrite find_app'.
+    destruct (find (fun p => fst p =? m) (rev (combine ns xs))); cbn; [reflexivity |].
+    destruct (n =? m); reflexivity.
+  Qed.
+
+  Lemma compile_exec : forall names values vs e rest slots vs',
+    wf vs -> length values = length names -> compile_vars names vs = (slots, vs') ->
+    exists e', exec_stores V slots (values ++ rest) e = Some (rest, e') /\ wf vs' /\
+      forall m, val vs' e' m = match bind_spec V names values m with Some x => Some x | None => val vs e m end.
+  Proof.
+    induction names as [| n ns IH]; intros values vs e rest slots vs' W L C.
+    - destruct values; [| discriminate]. cbn in C. inversion C; subst. exists e. cbn. auto.
+    - destruct values as [| x xs]; [discriminate |]. cbn in L. cbn [compile_vars] in C.
+      destruct (push_variable vs n) as [s vs1] eqn:P.
+      destruct (compile_vars ns vs1) as [slots2 vs2] eqn:C2. inversion C; subst; clear C.
+      destruct (push_variable_spec _ _ _ _ W P) as (W1 & Fn & Fo & Fd).
+      destruct (IH xs vs1 (set V e s x) rest slots2 vs' W1 ltac:(lia) C2) as (e' & E & W' & Hval).
+      exists e'. cbn [app exec_stores]. split; [exact E | split; [exact W' |]].
+      intro m. rewrite Hval, bind_spec_cons.
+      destruct (bind_spec V ns xs m); [reflexivity |].
+      unfold val at 1. destruct (N.eqb_spec n m) as [<- | Nm].
+      + rewrite Fn. unfold set. now rewrite N.eqb_refl.
+      + rewrite Fo by congruence. unfold val.
+        destruct (find_var vs m) as [s' |] eqn:Fm; [| reflexivity].
+        unfold set. destruct (N.eqb_spec s' s) as [-> | _]; [| reflexivity].
+        exfalso. apply (Fd m s); [congruence | now rewrite Fo by congruence | reflexivity].
+  Qed.
+
+  Lemma lookup_slot_wf : forall vs m, wf vs -> lookup_slot vs m = find_var vs m.
+  Proof.
+    intros vs m W. unfold lookup_slot, find_var. f_equal.
+    assert (ND := wf_names _ W). clear W.
+    induction vs as [| p vs IH]; [reflexivity |].
+    cbn [rev]. rewrite find_app'. cbn [map] in ND. inversion ND as [| a l Hnot ND']; subst.
+    rewrite IH by assumption. cbn [find].
+    destruct (N.eqb_spec (fst p) m) as [E | E].
+    - destruct (find (fun v => fst v =? m) vs) as [q |] eqn:F; [| reflexivity].
+      exfalso. apply find_some in F. destruct F as [Hin Eq]. apply Hnot.
+      apply N.eqb_eq in Eq. rewrite E, <- Eq. now apply in_map.
+    - destruct (find (fun v => fst v =? m) vs); reflexivity.
+  Qed.
+
+  Lemma wf_nil : wf [].
+  Proof. split; cbn; [contradiction | constructor | constructor]. Qed.
+
+  (* With as many values as names: execution reaches the query with exactly the input on the stack, and
+     `$name` is the value at the LAST position where the name was given to WithVariables. *)
+  Lemma vars_bind : forall names v values, length values = length names ->
+    (exists vs e, run_vars V names v values = Running V [v] vs e) /\
+    forall name, lookup_var V (run_vars V names v values) name = bind_spec V names values name.
+  Proof.
+    intros names v values L. unfold run_vars.
+    rewrite L, Nat.ltb_irrefl.
+    destruct (compile_vars names []) as [slots vs] eqn:C.
+    destruct (compile_exec names values [] (fun _ => None) [v] slots vs wf_nil L C) as (e' & E & W & Hval).
+    rewrite E. split; [eauto |].
+    intro name. cbn [lookup_var]. rewrite lookup_slot_wf by assumption.
+    generalize (Hval name). unfold val at 1 2. cbn. intro H.
+    destruct (bind_spec V names values name); exact H.
+  Qed.
+
+  Lemma bind_spec_nodup : forall names values i n, NoDup names -> length values = length names ->
+    nth_error names i = Some n -> bind_spec V names values n = nth_error values i.
+  Proof.
+    induction names as [| a ns IH]; intros values i n ND L H; [destruct i; discriminate |].
+    destruct values as [| x xs]; [discriminate |]. rewrite bind_spec_cons.
+    inversion ND as [| ? ? Hnot ND']; subst. destruct i as [| i]; cbn in H |- *.
+    - inversion H; subst. rewrite N.eqb_refl.
+      destruct (bind_spec V ns xs n) eqn:B; [| reflexivity].
+      exfalso. unfold bind_spec in B.
+      destruct (find (fun p => fst p =? n) (rev (combine ns xs))) as [[a b] |] eqn:F; [| discriminate].
+      apply find_some in F. destruct F as [Hin E]. apply in_rev in Hin. apply in_combine_l in Hin.
+      cbn in E. apply N.eqb_eq in E. subst. contradiction.
+    - rewrite (IH xs i n ND' ltac:(cbn in L; lia) H).
+      destruct (nth_error xs i) eqn:E; [reflexivity |].
+      exfalso. apply nth_error_None in E. assert (i < length ns)%nat by (apply nth_error_Some; congruence).
+      cbn in L. lia.
+  Qed.
+
+  Lemma vars_too_many : forall names v values, (length names < length values)%nat ->
+    run_vars V names v values = TooManyValues V.
+  Proof. intros. unfold run_vars. apply Nat.ltb_lt in H. now rewrite H. Qed.
+
+  Lemma vars_too_few : forall names v values, (length values < length names)%nat ->
+    run_vars V names v values = ExpectedVariable V (nth (length values) names 0).
+  Proof.
+    intros. unfold run_vars. assert (Nat.ltb (length names) (length values) = false) by (apply Nat.ltb_ge; lia).
+    apply Nat.ltb_lt in H. now rewrite H0, H.
+  Qed.
+
+  (* input: the k-th call yields the k-th value of the iterator, then the error "break" for ever *)
+  Lemma input_in_order : forall n (it : list V),
+    input_calls V n it = map (InputValue V) (firstn n it) ++ repeat (InputBreak V) (n - length it).
+  Proof.
+    induction n as [| n IH]; intro it; [reflexivity |].
+    destruct it as [| x r]; cbn [input_calls input_call].
+    - rewrite IH. cbn. now rewrite firstn_nil, Nat.sub_0_r.
+    - rewrite IH. reflexivity.
+  Qed.
+End VarsProofs.
+
+(* ---------------------------------------------------------------- environment, special names *)
+
+Lemma cut_eq_spec : forall kv k v, cut_eq kv = Some (k, v) <-> kv = k ++ 61 :: v /\ ~ In 61 k.
+Proof.
+  induction kv as [| c r IH]; intros k v; cbn.
+  - split; [discriminate |]. intros [H _]. destruct k; discriminate.
+  - destruct (N.eqb_spec c 61) as [-> | Nc].
+    + split.
+      * intro H. inversion H; subst. cbn. auto.
+      * intros [H Hn]. destruct k as [| a k]; cbn in H; inversion H; subst; [reflexivity |].
+        exfalso. apply Hn. now left.
+    + destruct (cut_eq r) as [[k0 v0] |] eqn:E.
+      * split.
+        -- intro H. inversion H; subst. destruct (proj1 (IH k0 v) eq_refl) as [-> Hn].
+           split; [reflexivity |]. intros [? | ?]; [congruence | contradiction].
+        -- intros [H Hn]. destruct k as [| a k]; cbn in H; inversion H; subst; [congruence |].
+           assert (Some (k0, v0) = Some (k, v)) by (apply IH; split; [reflexivity | intro; apply Hn; now right]).
+           now inversion H0.
+      * split; [discriminate |]. intros [H Hn]. destruct k as [| a k]; cbn in H; inversion H; subst; [congruence |].
+        assert (None = Some (k, v)) by (apply IH; split; [reflexivity | intro; apply Hn; now right]). discriminate.
+Qed.
+
+Lemma bytes_eqb_eq : forall a b, bytes_eqb a b = true <-> a = b.
+Proof.
+  induction a as [| x a IH]; destruct b as [| y b]; cbn; split; try discriminate; try reflexivity.
+  - intro H. apply andb_true_iff in H. destruct H as [H1 H2]. apply N.eqb_eq in H1. apply IH in H2. congruence.
+  - intro H. inversion H; subst. rewrite N.eqb_refl. cbn. now apply IH.
+Qed.
+
+(* every pair shown by `env` comes from a loader entry "k=v" (split at the first '='), k non-empty *)
+Lemma env_pairs_sound : forall kvs k v, In (k, v) (env_pairs kvs) ->
+  k <> [] /\ ~ In 61 k /\ In (k ++ 61 :: v) kvs.
+Proof.
+  induction kvs as [| kv r IH]; intros k v H; cbn in H; [contradiction |].
+  destruct (cut_eq kv) as [[[| c k0] v0] |] eqn:E.
+  - destruct (IH _ _ H) as (A & B & C). repeat split; auto. now right.
+  - destruct H as [H | H].
+    + inversion H; subst. apply cut_eq_spec in E. destruct E as [-> Hn]. repeat split; [discriminate | exact Hn | now left].
+    + destruct (IH _ _ H) as (A & B & C). repeat split; auto. now right.
+  - destruct (IH _ _ H) as (A & B & C). repeat split; auto. now right.
+Qed.
+
+Lemma env_pairs_complete : forall kvs k v, k <> [] -> ~ In 61 k -> In (k ++ 61 :: v) kvs -> In (k, v) (env_pairs kvs).
+Proof.
+  induction kvs as [| kv r IH]; intros k v Nk Hn H; [contradiction |]. cbn.
+  destruct H as [-> | H].
+  - assert (E : cut_eq (k ++ 61 :: v) = Some (k, v)) by (apply cut_eq_spec; auto).
+    rewrite E. destruct k; [congruence | now left].
+  - destruct (cut_eq kv) as [[[| c k0] v0] |]; [| right |]; now apply IH.
+Qed.
+
+Lemma env_lookup_sound : forall kvs k v, env_lookup kvs k = Some v -> In (k, v) (env_pairs kvs).
+Proof.
+  unfold env_lookup. intros kvs k v H.
+  destruct (find (fun p => bytes_eqb (fst p) k) (rev (env_pairs kvs))) as [[a b] |] eqn:F; [| discriminate].
+  apply find_some in F. destruct F as [Hin E]. cbn in *. apply bytes_eqb_eq in E. inversion H; subst.
+  now apply in_rev.
+Qed.
+
+(* the LAST entry for a key wins *)
+Lemma env_lookup_last : forall kvs k v, k <> [] -> ~ In 61 k -> env_lookup (kvs ++ [k ++ 61 :: v]) k = Some v.
+Proof.
+  intros kvs k v Nk Hn. unfold env_lookup.
+  assert (P : forall l, env_pairs (l ++ [k ++ 61 :: v]) = env_pairs l ++ [(k, v)]).
+  { induction l as [| a l IH]; cbn.
+    - assert (E : cut_eq (k ++ 61 :: v) = Some (k, v)) by (apply cut_eq_spec; auto).
+      rewrite E. destruct k; [congruence | reflexivity].
+    - rewrite IH. destruct (cut_eq a) as [[[| c k0] v0] |]; reflexivity. }
+  rewrite P, rev_app_distr. cbn.
+  assert (E : bytes_eqb k k = true) by now apply bytes_eqb_eq. now rewrite E.
+Qed.
+
+(* Decision table without options: nothing of the world is reachable. *)
+Lemma no_ambient_table : forall w,
+  compile_special w no_options SpEnv = BConstObject [] /\
+  compile_special w no_options SpDollarENV = BConstObject [] /\
+  compile_special w no_options SpInput = BCompileErrorInputNotAllowed /\
+  compile_special w no_options SpModulemeta = BModulemeta false /\
+  compile_special w no_options SpImport = BCompileErrorCannotLoadModule /\
+  compile_special w no_options SpInclude = BCompileErrorCannotLoadModule /\
+  compile_special w no_options SpImportData = BCompileErrorCannotLoadModule.
+Proof. intro w. repeat split. Qed.
+
+Lemma no_ambient_world : forall w w' s, compile_special w no_options s = compile_special w' no_options s.
+Proof. intros w w' []; reflexivity. Qed.
+
+(* each option grants its own capability only *)
+Lemma env_is_loader : forall w o l, o_environ_loader o = Some l ->
+  compile_special w o SpEnv = BConstObject (env_pairs (l w)) /\
+  compile_special w o SpDollarENV = BConstObject (env_pairs (l w)).
+Proof. intros w o l H. unfold compile_special. now rewrite H. Qed.
+
+Lemma options_independent : forall w o,
+  (o_environ_loader o = None -> compile_special w o SpEnv = BConstObject []) /\
+  (o_input_iter o = false -> compile_special w o SpInput = BCompileErrorInputNotAllowed) /\
+  (o_module_loader o = None -> compile_special w o SpImport = BCompileErrorCannotLoadModule
+                               /\ compile_special w o SpModulemeta = BModulemeta false).
+Proof.
+  intros w o. unfold compile_special.
+  split; [intro H; now rewrite H | split; [intro H; now rewrite H | intro H; rewrite H; split; reflexivity]].
+Qed.
